@@ -37,6 +37,7 @@ type SEnv struct {
 	depth   int
 	unfoldDepth int
 	nq      *int
+	proving bool
 }
 
 func (vc *VC) newEnv(cur, old *State, pkgPath string) *SEnv {
@@ -193,7 +194,7 @@ func (env *SEnv) tr(e *SExpr) *SVal {
 			if signed {
 				return &SVal{T: vc.iSub(vc.iNeg(x.T), IntLit64(1)), Go: x.Go}
 			}
-			return &SVal{T: vc.iSub(IntLit(new(big.Int).Sub(pow2(w), big.NewInt(1))), x.T), Go: x.Go}
+			return &SVal{T: vc.bnotTerm(x.T, w), Go: x.Go}
 		}
 		sfail("bad unary %s", e.Op)
 	case EBinary:
@@ -236,7 +237,9 @@ func (env *SEnv) tr(e *SExpr) *SVal {
 		switch xt := x.Go.Underlying().(type) {
 		case *types.Slice:
 			key, _ := vc.elemKey(xt.Elem())
-			return &SVal{T: Select(Select(vc.heapGet(env.cur, key), vc.slArr(x.T)), vc.iAdd(vc.slOff(x.T), ix)), Go: xt.Elem()}
+			r := &SVal{T: Select(Select(vc.heapGet(env.cur, key), vc.slArr(x.T)), vc.iAdd(vc.slOff(x.T), ix)), Go: xt.Elem()}
+			env.heapReadInv(r)
+			return r
 		case *types.Array:
 			return &SVal{T: Select(x.T, ix), Go: xt.Elem()}
 		case *types.Pointer:
@@ -356,7 +359,9 @@ func (env *SEnv) selectExpr(e *SExpr) *SVal {
 		for i := 0; i < st.NumFields(); i++ {
 			if st.Field(i).Name() == e.Op {
 				key, _ := vc.fieldKey(p.Elem(), i)
-				return &SVal{T: Select(vc.heapGet(env.cur, key), x.T), Go: st.Field(i).Type()}
+				r := &SVal{T: Select(vc.heapGet(env.cur, key), x.T), Go: st.Field(i).Type()}
+				env.heapReadInv(r)
+				return r
 			}
 		}
 		// embedded struct fields (one level)
@@ -692,6 +697,27 @@ func (env *SEnv) builtin(name string, args []*SExpr, e *SExpr) *SVal {
 		sfail("bad conversion %s(%v)", name, x.Go)
 	}
 	switch name {
+	case "hint":
+		// hint(lemma(args)): when the enclosing formula is being proved, the (separately proved) lemma instance;
+		// when it is being assumed, simply true. Logically neutral given the lemma.
+		need(1)
+		if !env.proving {
+			return &SVal{T: TTrue, Go: tb}
+		}
+		a := args[0]
+		if a.K != ECall || a.X.K != EIdent {
+			sfail("hint needs lemma(args)")
+		}
+		lem := vc.eng.findLemma(env.pkgPath, a.X.Op)
+		if lem == nil {
+			sfail("unknown lemma %s", a.X.Op)
+		}
+		t, err := vc.lemmaInstance(lem, env, a.Args)
+		if err != nil {
+			sfail("%v", err)
+		}
+		vc.usedLemmas = append(vc.usedLemmas, lem.Name)
+		return &SVal{T: t, Go: tb}
 	case "old":
 		need(1)
 		ne := env.child()
@@ -805,6 +831,21 @@ func (env *SEnv) builtin(name string, args []*SExpr, e *SExpr) *SVal {
 			sfail("%v", err)
 		}
 		return &SVal{T: vc.tagMatches(vc.ifTag(x.T), T), Go: tb}
+	case "reverse32", "tz32", "popcount32":
+		need(1)
+		x := env.materialize(env.tr(args[0]), types.Typ[types.Uint32])
+		if !vc.isBV() {
+			sfail("%s is only available in bv mode", name)
+		}
+		x = env.coerce(x, types.Typ[types.Uint32], name)
+		switch name {
+		case "reverse32":
+			return &SVal{T: vc.bitsStub("Reverse32", x.T), Go: types.Typ[types.Uint32]}
+		case "tz32":
+			return &SVal{T: vc.bitsStub("TrailingZeros32", x.T), Go: types.Typ[types.Int]}
+		default:
+			return &SVal{T: vc.bitsStub("OnesCount32", x.T), Go: types.Typ[types.Int]}
+		}
 	case "unboxptr":
 		need(1)
 		x := env.materialize(env.tr(args[0]), nil)
@@ -988,4 +1029,28 @@ func (env *SEnv) coerceSafe(v *SVal, want types.Type) (out *SVal) {
 		}
 	}()
 	return env.coerce(v, want, "spec function body")
+}
+
+// heapReadInv: a value read from the heap in a specification satisfies the invariant of its Go type
+// (well-formed slice header, references below the allocation watermark, ...).
+func (env *SEnv) heapReadInv(v *SVal) {
+	vc := env.vc
+	switch v.Go.Underlying().(type) {
+	case *types.Slice, *types.Pointer, *types.Map, *types.Interface:
+	default:
+		if !isString(v.Go) {
+			if !(isInteger(v.Go) && !vc.isBV()) {
+				return
+			}
+		}
+	}
+	if mentionsBound(v.T) {
+		return
+	}
+	key := "inv:" + v.T.String() + "@" + vc.wm(env.cur).String()
+	if vc.declSeen[key] {
+		return
+	}
+	vc.declSeen[key] = true
+	vc.facts = append(vc.facts, vc.typeInv(v.T, v.Go, env.cur))
 }
